@@ -137,7 +137,11 @@ def labels3d(node, env):
     raise TranslationError("axes of %s" % src)
 
 
+UNTYPED = []
+
+
 def contractions3d(repo):
+    del UNTYPED[:]
     from gen_ewald2d import type_einsum
     path = os.path.join(repo, "pyqmc/observables/ewald.py")
     tree = ast.parse(open(path).read())
@@ -167,16 +171,22 @@ def contractions3d(repo):
             if not isinstance(t, ast.Name):
                 continue
             for sub in ast.walk(v):
-                if isinstance(sub, ast.Call) and ast.unparse(sub.func).replace(" ", "") == "gpu.cp.einsum":
+                if isinstance(sub, ast.Call) and ast.unparse(sub.func).replace(" ", "") in ("gpu.cp.einsum", "np.einsum"):
                     spec = sub.args[0].value.replace(" ", "")
-                    ops = [labels3d(x, env) for x in sub.args[1:] if not (isinstance(x, ast.keyword))]
+                    try:
+                        ops = [labels3d(x, env) for x in sub.args[1:] if not (isinstance(x, ast.keyword))]
+                    except TranslationError as ex:
+                        # an operand whose axes the typer does not know (new local name, new helper): the site is listed as untyped in the
+                        # evidence and left to the numerical oracle; it is not an alarm
+                        UNTYPED.append({"function": fname, "line": sub.lineno, "spec": spec, "reason": str(ex)})
+                        continue
                     sites.append({"function": fname, "line": sub.lineno, "target": t.id, "spec": spec, "operands": ops, "typed": type_einsum(spec, ops)})
             try:
                 env[t.id] = labels3d(v, env)
             except TranslationError:
                 pass
-    if len(sites) < 5:
-        raise TranslationError("only %d einsum contractions found in ewald.py" % len(sites))
+    # the number of typed sites is reported in the evidence; a source that spells its contractions without einsum (tensordot, matmul, sums)
+    # simply has fewer sites to type — the Ewald oracle decides those lines
     return sites
 
 
